@@ -581,7 +581,7 @@ func (oa *orderAnalysis) checkSort(c *ssa.Call) {
 	// from two variable parts without a separator does not (R8), also when it
 	// is built by a small helper (a String() method of a key type)
 	if bad, desc := nonInjectiveKey(bo.X, 0); bad {
-		r.bad("C11.sort-canon", key, p.pos(less.Pos()), "the sort key is the concatenation "+desc+" of variable parts without a separator: different elements can have equal keys (\"ab\"+\"c\" = \"a\"+\"bc\"), they then keep their input order, so the output depends on it")
+		r.bad("C11.sort-canon", key, p.pos(less.Pos()), "the sort key is "+desc+": different elements can have equal keys (\"ab\"+\"c\" = \"a\"+\"bc\"; \"Tags\" and \"tags\" folded), they then keep their input order, so the output depends on it")
 		return
 	}
 	r.ok("C11.sort-canon", key, p.pos(c.Pos()), "strict '<' on "+shorten(sx))
@@ -1624,10 +1624,33 @@ func onlyErrorReturns(b *ssa.BasicBlock, loop map[*ssa.BasicBlock]bool, seen map
 // non-injective concatenation.
 func nonInjectiveKey(v ssa.Value, depth int) (bool, string) {
 	if bad, desc := nonInjectiveConcat(v); bad {
-		return true, desc
+		return true, "the concatenation " + desc + " of variable parts without a separator"
 	}
 	if depth > 2 {
 		return false, ""
+	}
+	// a key folded by a function that maps different strings to the same one
+	if c, _ := callOf(v); c != nil {
+		if g := c.Common().StaticCallee(); g != nil && g.Pkg != nil && g.Pkg.Pkg.Path() == "strings" {
+			switch g.Name() {
+			case "ToLower", "ToUpper", "ToTitle", "Title", "TrimSpace", "Trim", "TrimLeft", "TrimRight", "TrimPrefix", "TrimSuffix", "TrimFunc", "Map", "Replace", "ReplaceAll", "ToValidUTF8":
+				return true, "strings." + g.Name() + "(…) (a folding of the key)"
+			}
+		}
+		if builtinName(c.Common()) == "len" {
+			return true, "len(…) (a folding of the key)"
+		}
+		g := c.Common().StaticCallee()
+		if g == nil && !c.Common().IsInvoke() {
+			g = funcBoundTo(c.Common().Value)
+		}
+		if g != nil && g.Blocks != nil && g.Parent() != nil {
+			for _, rv := range returnsOf(g) {
+				if bad, desc := nonInjectiveKey(rv, depth+1); bad {
+					return true, desc
+				}
+			}
+		}
 	}
 	if c, _ := callOf(v); c != nil {
 		if g := c.Common().StaticCallee(); g != nil && g.Blocks != nil && smallHelper(g) || (g != nil && g.Blocks != nil && g.Name() == "String" && g.Pkg != nil && g.Pkg.Pkg.Path() == targetPkgPath) {
@@ -1639,4 +1662,48 @@ func nonInjectiveKey(v ssa.Value, depth int) (bool, string) {
 		}
 	}
 	return false, ""
+}
+
+// funcBoundTo resolves a func value called inside a closure to the function
+// literal it holds: a captured local variable that is assigned exactly once,
+// with a function literal.
+func funcBoundTo(v ssa.Value) *ssa.Function {
+	ld, ok := v.(*ssa.UnOp)
+	if !ok || ld.Op != token.MUL {
+		return nil
+	}
+	var cell ssa.Value = ld.X
+	if fv, ok := cell.(*ssa.FreeVar); ok {
+		fn := fv.Parent()
+		idx := -1
+		for i, q := range fn.FreeVars {
+			if q == fv {
+				idx = i
+			}
+		}
+		par := fn.Parent()
+		if par == nil || idx < 0 {
+			return nil
+		}
+		cell = nil
+		eachInstr(par, func(ins ssa.Instruction) {
+			if mc, ok := ins.(*ssa.MakeClosure); ok && mc.Fn == ssa.Value(fn) && idx < len(mc.Bindings) {
+				cell = mc.Bindings[idx]
+			}
+		})
+	}
+	al, ok := cell.(*ssa.Alloc)
+	if !ok {
+		return nil
+	}
+	sv := singleStore(al)
+	switch x := sv.(type) {
+	case *ssa.Function:
+		return x
+	case *ssa.MakeClosure:
+		if f, ok := x.Fn.(*ssa.Function); ok {
+			return f
+		}
+	}
+	return nil
 }
